@@ -2989,8 +2989,10 @@ _prev_b_dict = M.BUILTINS['dict'].fn
 def _b_dict(it, args, kw):
     if args:
         src = args[0]
-        if isinstance(src, Abs):
+        if isinstance(src, Abs) or (isinstance(src, VList) and src.kind is K_ABS):
             return Abs('dict')
+        if isinstance(src, RawMap):
+            return src                     # a copy of an (immutable in this model) value-keyed dict
         if isinstance(src, PDictV):
             src = pd_content(it, src)
         if isinstance(src, (DictV, SMap)):
@@ -3003,10 +3005,12 @@ def _b_dict(it, args, kw):
                 m.set(it, k, x)
             return m
         xs = _pairs_list(it, src)
+        if isinstance(xs, VList) and xs.kind is K_ABS:
+            return Abs('dict of opaque values')
         if xs is not None and M.try_iterate(it, xs) is None:
             J = it.run.fresh('dj', z3.IntSort())
             pair = xs.get(J)
-            if any(isinstance(x, Abs) for x in pair):
+            if isinstance(pair, Abs) or any(isinstance(x, Abs) for x in pair):
                 return Abs('dict of opaque values')
             m = dict_from_pairs(it, xs, J, z3.BoolVal(True), pair[0], pair[1])
             if kw:
